@@ -10,7 +10,7 @@ BoolD(b) == [t |-> "bool", bv |-> b]
 Null == [t |-> "null"]
 Pool == {NumD(N1), NumD(N2_5), StrD(Sa), StrD(Sb), StrD(S1), BoolD(TRUE), BoolD(FALSE), Null, StrD(Sa_b), NumD(N10)}
 Docs == Pool \cup {NumD(N2), StrD(Sabc), NumD(N1_0), StrD(<<116, 114, 117, 101>>), StrD(<<110, 117, 108, 108>>), StrD(<<97, 47, 98>>), StrD(<<34, 97>>),
-                   StrD(<<97, 92>>), StrD(Sab), StrD(Sxaby), StrD(Sempty), StrD(<<97, 10, 99>>), StrD(Sac), StrD(<<48, 49, 50>>), StrD(<<97, 46, 99>>), StrD(<<97, 120, 99>>)}
+                   StrD(<<97, 92>>), StrD(<<7>>), StrD(<<97, 127>>), StrD(<<12, 31>>), StrD(<<34, 92, 9>>), StrD(Sab), StrD(Sxaby), StrD(Sempty), StrD(<<97, 10, 99>>), StrD(Sac), StrD(<<48, 49, 50>>), StrD(<<97, 46, 99>>), StrD(<<97, 120, 99>>)}
 Strs3 == UNION {[1..n -> {97, 98, 47}] : n \in 0..3}                      \* Level 2: every string up to 3 over a, b, /
 AllDocs == Docs \cup (IF Level = 2 THEN {StrD(c) : c \in Strs3} ELSE {})
 DocSeq == SetToSeq(AllDocs)
@@ -28,7 +28,9 @@ Regexes == { Cat([t |-> "bol"], Cat(Chr(97), Chr(98))), Cat(Chr(98), [t |-> "eol
              Cat(Chr(34), Chr(97)),                          \* "a
              Cat(Chr(97), Chr(92)),                          \* a\    (pattern text ends with an escaped backslash)
              Cat([t |-> "bol"], Cat(Chr(97), Cat(Chr(92), Cat(Chr(47), [t |-> "eol"])))),   \* ^a\/$ : backslash then slash
-             [t |-> "star", a |-> Chr(120)] }
+             [t |-> "star", a |-> Chr(120)],
+             \* control characters and DEL: the example of such a type has to be quoted as JSON when the type is added
+             Chr(7), Cat(Chr(97), Chr(127)), [t |-> "plus", a |-> [t |-> "set", cs |-> <<1, 8, 12, 31>>, neg |-> FALSE]], Cat(Chr(34), Cat(Chr(92), Chr(9))) }
 \* Level 2: every regular expression of two operands over a small atom set (a character, a character that must be escaped
 \* inside /P/, any, a class, a negated class, each plain or under * + ?), joined by concatenation or alternation, anchored or not
 Atoms == {Chr(97), Chr(98), Chr(47), [t |-> "any"], [t |-> "set", cs |-> <<97, 98>>, neg |-> FALSE], [t |-> "set", cs |-> <<97>>, neg |-> TRUE]}
